@@ -18,9 +18,10 @@ ASSUMPTIONS = [
     "lone surrogates are not generated (text transport)",
 ]
 TRUSTED_EXTRA = ["re engine on the two .match patterns: Names/NamesRegex.v gives a backtracking matcher for the fragment in use and proves that the hand-written "
-                 "recognisers are what it computes on the transcribed patterns (C13_validate_regex_is_recogniser, C13_normalized_regex_is_recogniser); trusted are "
-                 "the transcription of the two pattern strings (flags included) and CPython's re implementing that semantics - both exercised by the "
-                 "bounded-exhaustive stream and by per-code-point sweeps over all 0x110000 code points in seven or more contexts (law.n.allcp)",
+                 "recognisers are what it computes on a hand transcription of the patterns (C13_validate_regex_is_recogniser, C13_normalized_regex_is_recogniser); "
+                 "trusted are the transcription of the two pattern strings (flags included) and CPython's re implementing that semantics - both exercised: the "
+                 "matcher itself is extracted and run on the transcribed terms against the real patterns (n.re on the bounded-exhaustive streams and the fixed "
+                 "cases), next to the recognisers on the bounded-exhaustive stream and per-code-point sweeps over all 0x110000 code points in seven or more contexts (law.n.allcp)",
                  "re.sub on [-_.]+ (leftmost, greedy, non-overlapping) is modelled by Names.sub_runs directly"]
 
 
@@ -28,10 +29,10 @@ def streams(rng, tier):
     q = tier == "quick"
     out = []
     for s in g.exhaustive(g.NAME_ALPHA, 4 if q else 5):
-        out.append(Case("exhaustive", "n.name", [s]))
+        out.append(Case("exhaustive", "n.name", [s])); out.append(Case("exhaustive-re", "n.re", [s]))
     if not q:
         for s in g.exhaustive(g.NAME_ALPHA_ASCII, 7):
-            if len(s) >= 6: out.append(Case("exhaustive-ascii", "n.name", [s]))
+            if len(s) >= 6: out.append(Case("exhaustive-ascii", "n.name", [s])); out.append(Case("exhaustive-re", "n.re", [s]))
     for _ in range(6000 if q else 150000):
         s = g.rand_name(rng)
         out.append(Case("structured", "n.name", [s]))
@@ -49,7 +50,7 @@ def streams(rng, tier):
             if rng.random() < (0.2 if q else 0.5): out.append(Case("law-pair-small", "law.n.pair", [s, t], kind="law"))
     for s in ["", "a", "A", "-", "a-", "-a", "a--b", "a-b", "a_b", "a.b", "a-_.b", "foo\n", "foo\n\n", "a\n--b", "\n--", "ab--c", "a-b--c", "ſ", "K",
               "İ", "aİb", "Foo.Bar_baz", "A" * 300 + "-" * 40 + "b", "x" + "-_." * 100 + "y", "0", "00", "a b", "a\x00b", "a\rb", "a\x0bb"]:
-        out.append(Case("fixed", "n.name", [s])); out.append(Case("fixed-law", "law.n.pair", [s, s.lower()], kind="law"))
+        out.append(Case("fixed", "n.name", [s])); out.append(Case("fixed-law", "law.n.pair", [s, s.lower()], kind="law")); out.append(Case("fixed-re", "n.re", [s]))
     # ---- non-ASCII cased letters and U+03A3 through the exact model (NamesX.canon_full), and the same strings through the laws
     for _ in range(3000 if q else 60000):
         s = g.rand_cased_name(rng)
@@ -70,7 +71,8 @@ def streams(rng, tier):
     for p in pts:                                # Final_Sigma classes: each swept code point after and before a sigma
         if rng.random() < (0.25 if q else 1.0):
             out.append(Case("sigma-sweep", "n.lower", ["aΣ" + chr(p)])); out.append(Case("sigma-sweep", "n.lower", ["aΣ" + chr(p) + "a"]))
-            out.append(Case("sigma-sweep", "n.lower", [chr(p) + "Σ"]))
+            out.append(Case("sigma-sweep", "n.lower", [chr(p) + "Σ"])); out.append(Case("sigma-sweep", "n.lower", ["a" + chr(p) + "Σ"]))
+            out.append(Case("sigma-sweep", "n.lower", ["a" + chr(p) + "Σ" + chr(p) + "a"]))
     big = "Ab" * 30000 + "-_." * 10000 + "É" * 10000 + "Σ"
     out.append(Case("long", "n.name", [big])); out.append(Case("long", "law.n.pair", [big, big.lower()], kind="law"))
     for ctx in ["{}", "a{}", "{}a", "a{}a", "a-{}", "{}.a", "A{}"] + ([] if q else ["a{}-b", "É{}", "{}Σ", "a_{}.", "{0}{0}"]):
